@@ -581,6 +581,16 @@ func (fx *fctx) assign(st *State, lv *lval, v *Value, n ast.Node) {
 		if !lv.raw || true {
 			fx.onEscape(st, v, n, "store")
 		}
+		// a function that protects a slice across calls (ghostProtect: the VM's operand stack) must not create
+		// heap aliases of its slots: the protection argument is that nobody else can reach them
+		if v != nil && v.Raw && v.Tm != nil && len(fx.protected) > 0 && !fx.spec && !fx.localAddr[lv.addr.id] {
+			g := e.ts.False()
+			if v.RawC != nil {
+				g = e.ts.Not(v.RawC)
+			}
+			g = e.ts.Or(e.ts.Eq(v.Tm, e.ts.Int(0)), g)
+			fx.assert(st, "raw-alias", "", g, n, nil, "no pointer into a protected slice (the operand stack) is stored in the heap")
+		}
 		e.storeCell(st, lv.key, lv.addr, lv.t, v)
 		fx.rawAccess = saved
 		return
@@ -1152,4 +1162,14 @@ func (fx *fctx) funcTableOf(x ast.Expr) *funcTable {
 		return nil
 	}
 	return &funcTable{Global: v, Entries: entries}
+}
+
+// strLitLen: the byte length of the string literal a term stands for (if it is one).
+func (e *Engine) strLitLen(t *Term) (int, bool) {
+	for s, lt := range e.strLits {
+		if lt == t {
+			return len(s), true
+		}
+	}
+	return 0, false
 }
